@@ -109,8 +109,8 @@ inline std::string run_publisher_history(vf::rng &r, std::string &trace_out, int
         snprintf(vf::g_crash.buf, sizeof vf::g_crash.buf, "{\"scenario\":\"publisher_history\",\"ops_so_far\":\"%.400s\"}", H.trace.c_str());
         if (x < 22 && !H.closed) { // publish single
             H.N++; H.trace += "pub "; H.pub->publish((int)H.N); H.settle_parked("publish");
-        } else if (x < 30 && !H.closed) { // publish batch
-            int k = 2 + (int)r.below(3);
+        } else if (x < 30 && !H.closed) { // publish batch (sometimes an EMPTY range: nothing is published, nobody may be woken)
+            int k = r.chance(1, 5) ? 0 : 2 + (int)r.below(3);
             std::vector<int> b; for (int i = 0; i < k; i++) b.push_back((int)(H.N + 1 + i));
             H.N += k; H.trace += "pub*" + std::to_string(k) + " ";
             H.pub->publish(b.begin(), b.end()); H.settle_parked("batch publish");
